@@ -472,7 +472,7 @@ def _program_instances(tier):
     from . import catalog
 
     return catalog.make_instances(tier, "C19", _program_body, "sliding_window_view (public) + SlidingWindowView._simplify_up + "
-                                  "MapOverlap/OverlapInternal or native kernels", select=lambda name: "sliding_window_view" in name or name.startswith("gradient("))
+                                  "MapOverlap/OverlapInternal or native kernels", select=lambda name: "sliding_window_view" in name or name.startswith(("gradient(", "cumsum(", "diff(")))
 
 
 def inst_map_overlap_sliced(blocks, kind, depth=None, start=None, hi=None, within_first=False, chunks=None):
